@@ -240,7 +240,26 @@ def run_new_collection(case):
     return {"steps": steps}
 
 
+def run_sub_alignment(case):
+    """ArrayAlignment.get_sub_alignment(seqs, pos, negate_seqs, negate_pos)"""
+    aln = build(case, arr=True)
+    kw = {}
+    if case["seqs"] is not None:
+        kw["seqs"] = list(case["seqs"])
+    if case["pos"] is not None:
+        kw["pos"] = list(case["pos"])
+    try:
+        new = aln.get_sub_alignment(negate_seqs=bool(case["negate_seqs"]), negate_pos=bool(case["negate_pos"]), **kw)
+    except Exception as e:  # noqa: BLE001
+        return {"steps": [{"exc": exc_code(e), "cls": type(e).__name__, "msg": str(e)[:200]}]}
+    if new is None:
+        return {"steps": [{"exc": 0, "cls": "returned-none"}]}
+    return {"steps": [observe(new, case)]}
+
+
 def run_case(case):
+    if case.get("sub_alignment"):
+        return run_sub_alignment(case)
     if case.get("probe"):
         return {"probe": probe(), "tables": tables()}
     if case.get("new_collection"):
